@@ -144,7 +144,10 @@ impl<T: Neg> Neg for IntOfLog<T> {
 impl<T: Evaluate> Evaluate for IntOfLog<T> {
     #[inline]
     fn evaluate(&self, v: f64) -> f64 {
-        self.k + self.poly.evaluate(v.ln())
+        // `indefinite()` solves q + q' = p, so the antiderivative of
+        // p(ln v) is v * q(ln v) (+ k): the factor v belongs here, exactly
+        // as in `IntOfLogPoly4::evaluate`.
+        v.mul_add(self.poly.evaluate(v.ln()), self.k)
     }
 }
 
